@@ -306,6 +306,29 @@ def main():
         for u in unchecked[:10]:
             print('UNDECIDED-BY-PROOF property=%s reason=function %s was not checked by the verifier' % (pid, u))
         rc = 2
+    thorough = None
+    if rc == 0 and a.tier == 'thorough':
+        # (1) vacuity guard: `assert(false)` injected at the entry of every verified function and at the top of
+        #     every loop body must FAIL everywhere (a site that verifies = contradictory requires/invariant);
+        # (2) proof stability: the whole crate under two further SMT seeds
+        import vacuity
+        thorough = {}
+        try:
+            vr = vacuity.run()
+            mine_v = [x for x in vr['not_refuted'] if any(x.startswith(f) for f in cone_fns)]
+            thorough['vacuity'] = {'injected': vr['injected'], 'refuted': vr['refuted'], 'not_refuted_in_cone': mine_v}
+            if mine_v:
+                for x in mine_v[:5]:
+                    print('UNDECIDED property=%s reason=vacuity guard: injected assert(false) verified at %s (contradictory precondition or invariant)' % (pid, x))
+                rc = 2
+        except Exception as e:
+            thorough['vacuity'] = 'failed to run: %r' % e
+        st = {}
+        for sd in (11, 12):
+            r2 = vrun.run_verus(b['text'], extra_args=['--smt-option', 'smt.random_seed=%d' % sd], tag='stab')
+            f2, t2 = vrun.classify(r2, b['text'], b['registry'])
+            st['seed %d' % sd] = {'failed_in_cone': sorted({f['fn'] for f in f2 if f['fn'] in cone_fns}), 'rlimit_in_cone': sorted({t['fn'] for t in t2 if t['fn'] in cone_fns}), 'wall_s': round(r2.get('wall_s') or 0, 1), 'cached': r2.get('cached', False)}
+        thorough['other_solver_seeds'] = st
     bounded = None
     if rc == 2 or (rc == 0 and a.tier == 'thorough'):
         # bounded stand-in (labelled, never counted as proved): the native oracle on its deterministic corpus
@@ -352,6 +375,7 @@ def main():
         'coverage': {
             **({'evaluations': bounded['summary'].get('builds', 0), 'distinct_nontrivial': bounded['summary'].get('distinct_cases', 0),
                 'rule': 'BOUNDED stand-in (never counted as proved): ' + bounded['bound'] + '; a case is one (payload, level, version, mask, mode) tuple, distinct by that tuple; every case is a full build checked clause by clause against the plain-Rust transcription of the ISO model'} if bounded is not None else {}),
+            'thorough_extras': thorough,
             'bounded_stand_in': ({'used_because': [t['msg'] + ' @' + str(t['fn']) for t in tool_mine[:10]] + unchecked[:10], 'cmd': bounded['cmd'], 'bound': bounded['bound'], 'summary': bounded['summary'], 'wall_s': bounded['wall_s'], 'cached': bounded['cached']} if bounded is not None else None),
             'obligations': n_ob, 'discharged': n_discharged,
             'checker_cmd': res['cmd'],
